@@ -220,6 +220,14 @@ func (w *W) serve(node, inc int, ss grpc.ServerStream) error {
 	return gorums.VerifServe(si.srv, ss)
 }
 
+// RegisterLate registers one more (unused) handler on the running server of endpoint node, as a program
+// that adds a service after it has started serving would.
+func (w *W) RegisterLate(node int, method string) {
+	if si := w.servers[node]; si != nil {
+		si.srv.RegisterHandler(method, func(gorums.ServerCtx, *gorums.Message, chan<- *gorums.Message) {})
+	}
+}
+
 func mdString(md metadata.MD) string {
 	var ks []string
 	for k, v := range md {
